@@ -347,6 +347,42 @@ def run(tier, seed, replay=None):
             if mv != real:
                 disagree("Fnmatch.fnmatch <-> fnmatch.fnmatchcase", {"pattern": p, "name": s}, mv, real)
 
+        # ------------------------------------------------ A2. the loop body of _match_words / match_after, exhaustively on a small alphabet
+        # pat_matches(np, exact, cmd) on the normalised strings: every pattern of <= 3 atoms x every command text of <= 4 atoms
+        # x anchored or not.  The real side is _match_words in remote mode (no alias, no normalisation: the strings are used as
+        # they are) and match_after's copy of the loop, compared with each other too (C19 shares the loop).
+        import itertools
+        P_ATOMS = ["a", "b", " ", "*", "?", "[a]", "[!a]", " *"]          # every character class the loop distinguishes: literal, blank, each glob char, the ' *' suffix
+        C_ATOMS = ["a", "b", " ", "*"]
+        pats = [""] + ["".join(t) for n in (1, 2, 3) for t in itertools.product(P_ATOMS, repeat=n)]
+        cmds = [""] + ["".join(t) for n in (1, 2, 3, 4) for t in itertools.product(C_ATOMS, repeat=n)]
+        if quick:
+            pats = [x for i, x in enumerate(pats) if len(x) <= 4 or i % 3 == 0]
+        n_pm = 0
+        for pi, pat in enumerate(pats):
+            for exact in (False, True):
+                rule_cfg = C.Config(rules=[C.Rule("deny", pat, exact=exact)])
+                after_cfg = C.Config(after_rules=[C.Rule("after", pat, message="m", exact=exact)])
+                sub_cmds = cmds if not quick else cmds[(pi + exact) % 4::4] + [pat, pat + " a", pat[:-2] if pat.endswith(" *") else pat + "a"]
+                for cmd in sub_cmds:
+                    real = rc.guarded(lambda: C._match_words([cmd], rule_cfg, cwd, remote=True) is not None)
+                    real = {True: "1", False: "0"}.get(real, "error" if real == "exn:error" else real)
+                    mv = mcall(["pat_matches", pat, exact, cmd])
+                    n_pm += 1
+                    if mv != real:
+                        disagree("Rules.pat_matches <-> the loop body of config._match_words (remote mode)", {"pattern": pat, "exact": exact, "command": cmd}, mv, real)
+                    if not any(c in pat + cmd for c in "/~.$"):   # no path-shaped token: match_after must agree with _match_words
+                        ws = cmd.split(" ")
+                        if all(ws):
+                            ra = rc.guarded(lambda: C.match_after(list(ws), after_cfg, cwd) == "m")
+                            rw = rc.guarded(lambda: C._match_words(list(ws), rule_cfg, cwd) is not None)
+                            if ra != rw:
+                                out.violations.append({"kind": "after-loop", "what": f"pattern {pat!r} exact={exact} on {ws!r}: _match_words fires={rw}, match_after fires={ra}",
+                                                       "case": {"after_pattern": pat, "exact": exact, "words": ws},
+                                                       "signature_text": f"after-loop pattern={pat!r} exact={exact} words={ws!r}"})
+        out.count("pat_matches.exhaustive", "cases", n_pm) if False else out.extra.__setitem__("pat_matches_cases", n_pm)
+        out.case(["pm-exhaustive", len(pats), len(cmds)], nontrivial=True)
+
         # ------------------------------------------------ B. rule lists: model <-> config.py
         pool = [gen_words(rng) for _ in range(40)]
         n_cfg = 250 if quick else 2500
